@@ -292,35 +292,72 @@ fn mutate(rng: &mut Rng, n: &mut GNode, depth: usize) {
     }
 }
 
-fn merge_doc(rng: &mut Rng) -> GNode {
-    // mappings with merge entries: inline maps, aliases, sequences, nested merges, colliding own keys
+/// a merge SOURCE mapping: small, colliding keys, may itself contain merge entries (plain `<<`), and quoted / tagged
+/// `<<` keys that must stay ordinary keys also when the mapping is reached as a merge source
+fn merge_source_map(rng: &mut Rng, anchor: Option<String>, depth: u32, nd: usize, nl: usize) -> GNode {
     let keys = ["a", "b", "c", "d"];
-    let small_map = |rng: &mut Rng, anchor: Option<String>| -> GNode {
-        let n = 1 + rng.below(3);
-        GNode::Map { anchor, tag: None, flow: true, entries: (0..n).map(|_| (sc(*rng.pick(&keys)), sc(&rng.below(9).to_string()))).collect() }
-    };
+    let n = 1 + rng.below(3);
+    let mut entries: Vec<(GNode, GNode)> = (0..n).map(|_| (sc(*rng.pick(&keys)), sc(&rng.below(9).to_string()))).collect();
+    if depth > 0 && rng.chance(1, 4) {
+        let at = rng.below(entries.len() + 1);
+        entries.insert(at, (sc("<<"), merge_value(rng, depth - 1, nd, nl)));
+    }
+    if rng.chance(1, 6) {
+        let at = rng.below(entries.len() + 1);
+        let k = GNode::Scalar { text: "<<".into(), style: *rng.pick(&[1u8, 2]), anchor: None, tag: if rng.chance(1, 3) { Some("!!str".into()) } else { None } };
+        let v = if rng.chance(1, 2) { sc("q") } else { GNode::Map { anchor: None, tag: None, flow: true, entries: vec![(sc(*rng.pick(&keys)), sc("7"))] } };
+        entries.insert(at, (k, v));
+    }
+    GNode::Map { anchor, tag: None, flow: true, entries }
+}
+
+/// the value of a `<<` entry: mapping, alias to a mapping / to a list of mappings, sequence (nested sequences included)
+fn merge_value(rng: &mut Rng, depth: u32, nd: usize, nl: usize) -> GNode {
+    match rng.below(8) {
+        0 | 1 if nd > 0 => GNode::Alias(format!("m{}", rng.below(nd))),
+        2 if nl > 0 => GNode::Alias(format!("l{}", rng.below(nl))),
+        3 | 4 if depth > 0 => {
+            let k = 1 + rng.below(3);
+            let items = (0..k).map(|_| merge_value(rng, depth - 1, nd, nl)).collect();
+            GNode::Seq { anchor: None, tag: None, items, flow: true }
+        }
+        _ => merge_source_map(rng, None, depth, nd, nl),
+    }
+}
+
+fn merge_doc(rng: &mut Rng) -> GNode {
+    // mappings with merge entries: inline maps, aliases, sequences (nested too), nested merges, colliding own keys
+    let keys = ["a", "b", "c", "d"];
     let mut defs: Vec<(GNode, GNode)> = Vec::new();
     let nd = rng.below(3);
     for i in 0..nd {
-        let mut m = small_map(rng, Some(format!("m{i}")));
+        let mut m = merge_source_map(rng, Some(format!("m{i}")), 0, 0, 0);
         if i > 0 && rng.chance(1, 2) {
             if let GNode::Map { entries, .. } = &mut m { entries.push((sc("<<"), GNode::Alias(format!("m{}", i - 1)))); }
         }
         defs.push((sc(&format!("def{i}")), m));
     }
+    // anchored LISTS of mappings (two of them defining the same key more often than not)
+    let nl = if rng.chance(1, 3) { 1 + rng.below(2) } else { 0 };
+    for i in 0..nl {
+        let k = 2 + rng.below(2);
+        let items = (0..k).map(|_| merge_value(rng, 1, nd, i)).collect();
+        defs.push((sc(&format!("list{i}")), GNode::Seq { anchor: Some(format!("l{i}")), tag: None, items, flow: true }));
+    }
     let mut entries: Vec<(GNode, GNode)> = Vec::new();
     let n = 1 + rng.below(5);
     for _ in 0..n {
-        match rng.below(7) {
+        match rng.below(8) {
             0 | 1 => entries.push((sc(*rng.pick(&keys)), sc(&rng.below(9).to_string()))),
             2 if nd > 0 => entries.push((sc("<<"), GNode::Alias(format!("m{}", rng.below(nd))))),
-            3 => entries.push((sc("<<"), small_map(rng, None))),
+            3 => entries.push((sc("<<"), merge_source_map(rng, None, 2, nd, nl))),
             4 => {
                 let k = 1 + rng.below(3);
-                let items = (0..k).map(|_| if nd > 0 && rng.chance(1, 2) { GNode::Alias(format!("m{}", rng.below(nd))) } else { small_map(rng, None) }).collect();
+                let items = (0..k).map(|_| merge_value(rng, 2, nd, nl)).collect();
                 entries.push((sc("<<"), GNode::Seq { anchor: None, tag: None, items, flow: true }));
             }
             5 => entries.push((sc("<<"), match rng.below(5) { 0 => sc("~"), 1 => sc("scalar"), 2 => GNode::Seq { anchor: None, tag: None, items: vec![sc("x")], flow: true }, 3 => GNode::Scalar { text: "<<".into(), style: 2, anchor: None, tag: None }, _ => sc("") })),
+            6 => entries.push((sc("<<"), merge_value(rng, 3, nd, nl))),
             _ => entries.push((GNode::Scalar { text: "<<".into(), style: *rng.pick(&[1u8, 2]), anchor: None, tag: if rng.chance(1, 2) { Some("!!str".into()) } else { None } }, sc("q"))),
         }
     }
